@@ -92,7 +92,7 @@ def impl(case):
         logger = MemoryLogger()
         prev = swap_logger(logger)
         try:
-            it = progs.Interp(case)
+            it = progs.Interp(dict(case, swapped_logger=True))
             try:
                 it.block(case["prog"], 0)
             except BaseException:
